@@ -363,7 +363,11 @@ Definition so_step (prop : Z) (ns : nat) (snaps : list (list ssnap)) (o : so) (r
             let a :=
               if prop =? 4 then
                 (* an ADD that failed hands back everything it took: the pod owns what it held before *)
-                fold_left (fun acc p => so_req acc (existsb (fun x => (p_pod x =? p) && negb (p_rej x)) (o_rpcs acc) || same_addrs (owned_in ss p) (holds p)) 406) (o_failed o) o
+                (* ... or, when a DEL released its allocation and failed to remove the record, what that record names
+                   (the failed ADD re-took exactly the recorded allocation: record and pool agree again) *)
+                let named p := match sget p (o_store o) with Some rc => rec_addrs rc | None => [] end in
+                fold_left (fun acc p => so_req acc (existsb (fun x => (p_pod x =? p) && negb (p_rej x)) (o_rpcs acc)
+                                                    || same_addrs (owned_in ss p) (holds p) || same_addrs (owned_in ss p) (named p)) 406) (o_failed o) o
               else o in
             let a :=
               if prop =? 9 then
